@@ -43,12 +43,18 @@ pub struct FaultPlan {
     pub errno: i32,
     /// second, independent single fault (pairs)
     pub second: Option<(usize, FaultMode)>,
+    /// repeat the `count` failing calls every `period` calls (0 = no repetition)
+    pub period: usize,
+    /// only calls at this site ("data-write", "journal-write", "metadata-write", "fsync") are
+    /// counted and failed; None = every write and fsync
+    pub site: Option<&'static str>,
 }
 
 #[derive(Default)]
 pub struct Device {
     pub entries: Vec<Entry>,
     pub io_calls: usize,
+    pub site_calls: usize,
     pub plan: Option<FaultPlan>,
     pub faults_injected: usize,
     pub injected_sites: Vec<(usize, &'static str)>,
@@ -116,11 +122,19 @@ impl IoConsumer for Consumer {
                 IoDecision::Proceed
             }
             IoKind::Write | IoKind::UringWrite | IoKind::Fsync => {
-                let idx = d.io_calls;
+                let mut idx = d.io_calls;
                 d.io_calls += 1;
                 let mut decision = IoDecision::Proceed;
-                if let Some(plan) = &d.plan {
-                    let in_first = idx >= plan.from && (plan.count == usize::MAX || idx < plan.from.saturating_add(plan.count));
+                let site_filter = d.plan.as_ref().and_then(|p| p.site);
+                let site_matches = site_filter.is_none_or(|s| s == site_name(ev.kind, ev.offset));
+                if site_filter.is_some() && site_matches {
+                    idx = d.site_calls;
+                    d.site_calls += 1;
+                }
+                if let (Some(plan), true) = (&d.plan, site_matches) {
+                    let in_first = idx >= plan.from
+                        && (plan.count == usize::MAX
+                            || if plan.period > 0 { (idx - plan.from) % plan.period < plan.count } else { idx < plan.from.saturating_add(plan.count) });
                     if in_first {
                         decision = match plan.mode {
                             FaultMode::Before => IoDecision::FailBefore(plan.errno),
